@@ -4,6 +4,17 @@ From BV Require Import Gen.C09Tables Model.ChanMgr Proofs.ChanMgrLib Proofs.Chan
 Import ListNotations.
 Open Scope Z_scope.
 
+Ltac prep_cw I Hu :=
+  let c := match type of Hu with hget _ _ = Some ?c => c end in
+  let cw := fresh "cw" in let Hcw := fresh "Hcw" in
+  destruct (c_cw c) as [cw|] eqn:Hcw;
+  [destruct (ch_cw _ I _ _ _ Hu Hcw) as (_ & _ & ?x & ?Hwx & _ & _ & ?Hxc & _)|].
+Ltac prep_dw I Hu :=
+  let c := match type of Hu with hget _ _ = Some ?c => c end in
+  let dw := fresh "dw" in let Hdw := fresh "Hdw" in
+  destruct (c_dw c) as [dw|] eqn:Hdw;
+  [destruct (ch_dw _ I _ _ _ Hu Hdw) as (_ & _ & ?x & ?Hwx & _ & _ & ?Hxc & _)|].
+
 Ltac go := cbv zeta; cbn [wres_opt wpending fst snd]; ifs; try reflexivity; leaf; fin2.
 
 Lemma find_cl_spec m h cid u c : find_cl m h cid = Some (u, c) ->
@@ -28,7 +39,7 @@ Proof.
   destruct (find_cl m a scid) as [[u c]|] eqn:F; [|reflexivity].
   apply find_cl_spec in F as (T & Hu & K). destruct (chs_pt _ I _ _ _ T) as (c' & Hu' & Hc & _).
   assert (c' = c) by congruence. subst c' a. clear Hu'. unfold cl_connect_failed.
-  prep I Hu. all: destruct (c_st c); try reflexivity; go.
+  prep_cw I Hu. all: destruct (c_st c); try reflexivity; go.
 Qed.
 
 Lemma loc_recv_conf_req a m id dcid rfc bad : Inv m ->
@@ -39,7 +50,7 @@ Proof.
   destruct (find_cl m a dcid) as [[u c]|] eqn:F; [|reflexivity].
   apply find_cl_spec in F as (T & Hu & K). destruct (chs_pt _ I _ _ _ T) as (c' & Hu' & Hc & _).
   assert (c' = c) by congruence. subst c' a. clear Hu'. unfold cl_connect_failed.
-  prep I Hu. all: destruct (c_st c); try reflexivity; go.
+  prep_cw I Hu. all: destruct (c_st c); try reflexivity; go.
 Qed.
 
 Lemma loc_recv_conf_rsp a m id scid result sugg : Inv m ->
@@ -50,7 +61,7 @@ Proof.
   destruct (find_cl m a scid) as [[u c]|] eqn:F; [|reflexivity].
   apply find_cl_spec in F as (T & Hu & K). destruct (chs_pt _ I _ _ _ T) as (c' & Hu' & Hc & _).
   assert (c' = c) by congruence. subst c' a. clear Hu'.
-  prep I Hu. all: destruct (c_st c); try reflexivity; go.
+  prep_cw I Hu. all: destruct (c_st c); try reflexivity; go.
 Qed.
 
 Lemma loc_recv_disc_req a m id dcid scid : Inv m ->
@@ -70,7 +81,7 @@ Proof.
   intros I. unfold recv_disc_rsp. autorewrite with loc.
   destruct (tget a scid (m_chs m)) as [u|] eqn:T; [|reflexivity].
   destruct (chs_pt _ I _ _ _ T) as (c & Hu & Hc & _). subst a. norm.
-  prep I Hu. all: destruct (c_kind c); destruct (c_st c); try reflexivity; go.
+  prep_dw I Hu. all: destruct (c_kind c); destruct (c_st c); try reflexivity; go.
 Qed.
 
 Lemma loc_recv_credit a m cid n : Inv m ->
